@@ -154,9 +154,49 @@ class ResourceSeam:
       fh.close()
       cut = len(data) // 2
       if isinstance(data, bytes):
+        # a truncated binary resource (the lzma table): decompression fails
         return io.BytesIO(data[:cut])
-      return io.StringIO(data[:cut])
+      # A text resource is consumed line by line; silently dropping its tail
+      # would model a corrupt installation (which no library can notice), not
+      # a fault.  The realistic fault is a read error in the middle of the
+      # file: half of the lines, then EIO.
+      return _FailingTextFile(data[:cut], path)
     return fh
+
+
+class _FailingTextFile(io.StringIO):
+  """Yields the given text, then raises OSError instead of signalling EOF."""
+
+  def __init__(self, text, path):
+    super().__init__(text)
+    self._path = path
+
+  def _fail(self):
+    raise OSError(5, "simulated read error in the middle of a resource",
+                  self._path)
+
+  def __next__(self):
+    try:
+      return super().__next__()
+    except StopIteration:
+      self._fail()
+
+  def read(self, *args):
+    data = super().read(*args)
+    if not data:
+      self._fail()
+    if not args or args[0] is None or args[0] < 0:
+      self._fail()
+    return data
+
+  def readline(self, *args):
+    line = super().readline(*args)
+    if not line:
+      self._fail()
+    return line
+
+  def readlines(self, *args):
+    self._fail()
 
 
 # ----------------------------------------------------------------------------
